@@ -24,6 +24,17 @@ CHECKS = {
         note="Bounded: patch <= 4 bytes, enums <= 9 labels (quick) / all (thorough), two observers; floats compared via "
              "the ratio abstraction justified by C14's monotone lemma.",
         ref="5/C03"),
+    "C04": dict(
+        text="Every message constructor of the protocol package is run with symbolic fields, compared byte for byte with "
+             "an independent layout, offered to can_handle of every standard handler class (exactly the peer accepts) and "
+             "decoded by the peer's handle (attributes equal inputs). Packet framing is decided with fully symbolic "
+             "identifiers and payload: the regular expression the code passes to re.search is turned into an exact "
+             "term-level model of CPython's leftmost/greedy/lazy matching (sx/rx.py), so a payload that shifts the split "
+             "is found by the solver and replayed on the real re. Reply addressing on symbolic identifiers.",
+        note="Bounded: framing payload <= 40 (quick) / <= 48 (thorough) bytes, segment payload lengths sampled in quick and "
+             "0..255 in thorough, <=2/3 reminder records, names <= 3 bytes; FILES is an exhaustive concrete loop over the "
+             "895 shipped combinations. Known findings: SETWC and WCREQ are claimed by no standard handler.",
+        ref="5/C04"),
     "C05": dict(
         text="Real STATP/STATQ handlers of the async and the threaded client, the real on-update callbacks and the real "
              "structure patching, driven through the real first-match dispatch (threaded) / async_handle+async_handled "
